@@ -7,11 +7,45 @@ import shutil
 from .core import import_darr, HarnessError
 
 
-def _regen(handle):
+def _regen(handle, dirpath):
+    """Let Darr regenerate README.txt for the directory `dirpath` through a fresh handle: the private
+    _update_readmetxt when it exists, else the module-level readcodetxt(handle); neither = HARNESS-ERROR."""
     if hasattr(handle, '_update_readmetxt'):
         handle._update_readmetxt()
-    else:
-        raise HarnessError('no _update_readmetxt on handle; README differential oracle unavailable')
+        return
+    import importlib
+    mod = importlib.import_module(type(handle).__module__)
+    fn = getattr(mod, 'readcodetxt', None)
+    if fn is None:
+        raise HarnessError('neither _update_readmetxt nor readcodetxt: README differential oracle unavailable')
+    with open(os.path.join(dirpath, 'README.txt'), 'w', encoding='utf-8') as f:
+        f.write(fn(handle))
+
+
+def _codelines(text):
+    return [l.strip() for l in text.splitlines() if l.strip()]
+
+
+def contains_code(txt, code):
+    """the snippet occurs in the README, line by line in sequence; indentation is free"""
+    if code in txt:
+        return True
+    want, have = _codelines(code), _codelines(txt)
+    if not want:
+        return True
+    for i in range(len(have) - len(want) + 1):
+        if have[i:i + len(want)] == want:
+            return True
+    return False
+
+
+def _copy_same_name(path, scratch):
+    """a copy of the directory under the same base name (a README may mention its directory)"""
+    shutil.rmtree(scratch, ignore_errors=True)
+    os.makedirs(scratch)
+    dst = os.path.join(scratch, os.path.basename(os.path.normpath(path)))
+    shutil.copytree(path, dst, symlinks=True)
+    return dst
 
 
 def check_array_readme(path, scratch, model_shape=None, has_meta=None, who='array'):
@@ -23,15 +57,14 @@ def check_array_readme(path, scratch, model_shape=None, has_meta=None, who='arra
         return (f'readme.{who}', 'missing', '')
     with open(rp, 'rb') as f:
         cur = f.read()
-    shutil.rmtree(scratch, ignore_errors=True)
-    shutil.copytree(path, scratch, symlinks=True)
+    cp = _copy_same_name(path, scratch)
     try:
         try:
-            h = darr.Array(scratch, accessmode='r+')
+            h = darr.Array(cp, accessmode='r+')
         except Exception as e:
             return (f'readme.{who}', f'copy_unopenable:{type(e).__name__}', str(e)[:200])
-        _regen(h)
-        with open(os.path.join(scratch, 'README.txt'), 'rb') as f:
+        _regen(h, cp)
+        with open(os.path.join(cp, 'README.txt'), 'rb') as f:
             new = f.read()
         if new != cur:
             return (f'readme.{who}', 'stale_differential', _firstdiff(cur, new))
@@ -40,7 +73,7 @@ def check_array_readme(path, scratch, model_shape=None, has_meta=None, who='arra
         fresh = darr.Array(path)
         for lang in fresh.readcodelanguages:
             code = fresh.readcode(lang)
-            if code is not None and code not in txt:
+            if code is not None and not contains_code(txt, code):
                 return (f'readme.{who}', f'snippet_missing:{lang}', '')
         shape = tuple(fresh.shape)
         descr = txt.split('Code for reading')[0]
@@ -48,7 +81,9 @@ def check_array_readme(path, scratch, model_shape=None, has_meta=None, who='arra
             if not re.search(rf'(?<![\d.]){shape[0]}(?![\d.])', descr):
                 return (f'readme.{who}', 'length_not_stated', '')
         else:
-            if str(shape) not in descr and str(list(shape)) not in descr:
+            # the extents occur on one line, in order, as numbers (whatever the punctuation: (3, 2), 3 x 2 ...)
+            pat = r'(?<![\d.])' + r'\D+'.join(str(x) for x in shape) + r'(?![\d.])'
+            if not any(re.search(pat, ln) for ln in descr.splitlines()):
                 return (f'readme.{who}', 'dimensions_not_stated', '')
         mentioned = 'metadata.json' in txt
         hm = os.path.exists(os.path.join(path, 'metadata.json')) if has_meta is None else has_meta
@@ -71,15 +106,14 @@ def check_ragged_readme(path, scratch, model_lens=None):
         return ('readme.ragged', 'missing', '')
     with open(rp, 'rb') as f:
         cur = f.read()
-    shutil.rmtree(scratch, ignore_errors=True)
-    shutil.copytree(path, scratch, symlinks=True)
+    cp = _copy_same_name(path, scratch)
     try:
         try:
-            h = darr.RaggedArray(scratch, accessmode='r+')
+            h = darr.RaggedArray(cp, accessmode='r+')
         except Exception as e:
             return ('readme.ragged', f'copy_unopenable:{type(e).__name__}', str(e)[:200])
-        _regen(h)
-        with open(os.path.join(scratch, 'README.txt'), 'rb') as f:
+        _regen(h, cp)
+        with open(os.path.join(cp, 'README.txt'), 'rb') as f:
             new = f.read()
         if new != cur:
             return ('readme.ragged', 'stale_differential', _firstdiff(cur, new))
@@ -87,7 +121,7 @@ def check_ragged_readme(path, scratch, model_lens=None):
         fresh = darr.RaggedArray(path)
         for lang in fresh.readcodelanguages:
             code = fresh.readcode(lang)
-            if code is not None and code not in txt:
+            if code is not None and not contains_code(txt, code):
                 return ('readme.ragged', f'snippet_missing:{lang}', '')
         if model_lens is not None:
             n = len(model_lens)
